@@ -18,6 +18,8 @@ pub enum Op {
     Include(u8),
     Ban(u8),
     Demote(u8),
+    /// `PromotionBehavior::demote_peer` called directly (public API; the DemotePeer command only re-tags the peer)
+    DemoteDirect(u8),
     Housekeeping,
     StartSync,
     ContinueSync(u8),
@@ -159,6 +161,18 @@ impl World {
                 let p = self.peer(*i);
                 self.b.execute(InitiatorCommand::DemotePeer(pid(p)));
                 true
+            }
+            Op::DemoteDirect(i) => {
+                let p = pid(self.peer(*i));
+                // "demotes a peer back to cold": only meaningful for a peer that is warm or hot
+                let promoted = self.b.promotion.warm_peers.contains(&p) || self.b.promotion.hot_peers.contains(&p);
+                match self.b.peers.get_mut(&p) {
+                    Some(st) if promoted => {
+                        self.b.promotion.demote_peer(&p, st);
+                        true
+                    }
+                    _ => false,
+                }
             }
             Op::Housekeeping => {
                 self.b.execute(InitiatorCommand::Housekeeping);
